@@ -7,6 +7,8 @@ Model of
 * `GdefFeatureWriter.setContext / _getLigatureCarets / _sortedGlyphClass / _write`
 * `CursFeatureWriter._getCursiveAnchorPairs / _makeCursiveFeature / _makeCursiveLookup /
    _getAnchors / _makeCursiveStatements`
+* `util.classifyGlyphs`, the GSUB step for one key (`classifyDir`; fontTools' subsetter closure abstracted to a rule list:
+  `closeGlyphs`) — used where the harness supplies the rules it wrote (neutral-context stream)
 * the part of feaLib's GDEF builder that turns the emitted statements into the compiled table
   (`fontClasses`, `fontCarets`) — assumed, measured by the correspondence run on every case.
 
@@ -314,6 +316,43 @@ def lookupsForPair (quant : Option Q) (glyphs : List GlyphIn) (d : DirData) (p :
 def cursFeature (quant : Option Q) (glyphs : List GlyphIn) (d : DirData) (todo : Bool) : List Lookup :=
   if !todo then []
   else (cursivePairs (anchorNameSet glyphs)).flatMap (lookupsForPair quant glyphs d)
+
+/-! ### `util.classifyGlyphs`: cmap classification closed over GSUB
+
+fontTools' subsetter closure (`closeGlyphsOverGSUB` → `table.closure_glyphs`) is abstracted to a list of rules
+"when every glyph of `need` is in the set, the glyphs of `out` join it" — one rule per substitution the harness wrote
+(`sub a by b` : need [a]; `sub a period by a_period` : need [a, period]; `sub a' period by a.fina` : need [a, period];
+`sub a by b c` : out [b, c]).  That this is what the subsetter computes for these rule shapes is assumed and measured. -/
+
+structure Rule where
+  need : List String
+  out : List String
+  deriving Repr, DecidableEq
+
+def subsetOf (a b : List String) : Bool := a.all (fun g => b.contains g)
+
+/-- one round of the closure: outputs of every rule all of whose needed glyphs are present -/
+def closeStep (rules : List Rule) (s : List String) : List String :=
+  s ++ (((rules.filter (fun r => subsetOf r.need s)).flatMap (·.out)).filter (fun g => !s.contains g)).eraseDups
+
+/-- `closeGlyphsOverGSUB(gsub, s)`: rounds until nothing changes; `k` rounds here -/
+def closeGlyphs (rules : List Rule) : Nat → List String → List String
+  | 0, s => s
+  | k + 1, s => closeGlyphs rules k (closeStep rules s)
+
+/-- a round that adds a glyph fires a rule that did not fire before, so `rules.length` rounds reach the fixed point
+(the driver checks `closedUnder` on the result instead of relying on this) -/
+def closeFuel (rules : List Rule) : Nat := rules.length + 1
+
+def closedUnder (rules : List Rule) (s : List String) : Bool :=
+  rules.all (fun r => !subsetOf r.need s || subsetOf r.out s)
+
+/-- `classifyGlyphs` for one key: `neutralGlyphs` closed; `s = glyphs | neutralGlyphs` closed;
+`glyphs.update(s - neutralGlyphs)`.  Returns (glyphs, closed neutral set). -/
+def classifyDir (rules : List Rule) (dir0 neutral0 : List String) : List String × List String :=
+  let n := closeGlyphs rules (closeFuel rules) neutral0
+  let s := closeGlyphs rules (closeFuel rules) (dir0 ++ n)
+  (dir0 ++ s.filter (fun g => !n.contains g && !dir0.contains g), n)
 
 /-! ### the whole observation -/
 
